@@ -28,6 +28,11 @@ theorem gen_db_file_readonly : ∀ c ∈ Gen.Sql.dbPathCalls, c = "init: os.Open
 /-- The lock insert only ever occurs inside the function that rolls its transactions back. -/
 theorem gen_lock_insert_sites : ∀ s ∈ Gen.Sql.inventory, classify s.2 = some .insertLockInTx → s.1 = "checkpointWithExecutor" := by decide
 
+/-- The lock insert is only ever issued on a transaction handle (`*sql.Tx`), never on the
+    connection pool, where it would be committed at once. -/
+theorem gen_lock_insert_only_in_tx : ∀ r ∈ Gen.Sql.receivers,
+    classify r.2.1 = some .insertLockInTx → r.2.2 = "tx" := by decide
+
 theorem exec_user {U : Type} (s : Store U) (o : Op U) :
     (exec s o).user = match o with | .app f => f s.user | _ => s.user := by
   cases o with
